@@ -5,6 +5,7 @@ import (
 	"encoding/json"
 	"fmt"
 	"io"
+	"log/slog"
 	"net/http"
 	"net/http/httptest"
 	"reflect"
@@ -315,6 +316,20 @@ func TestC20Routing(t *testing.T) {
 			doc, exp, _ = drawNIP11(t)
 			mux.NIP11 = doc
 		}
+		// every optional logger the mux (and relay) offers, set or unset: routing must not depend on it
+		withLoggers := rapid.Bool().Draw(t, "with_loggers")
+		if withLoggers {
+			lg := slog.New(slog.NewTextHandler(io.Discard, nil))
+			ropt := mocrelay.NewDefaultRelayOption()
+			ropt.Logger = lg
+			mux.Relay = mocrelay.NewRelay(rec, ropt)
+			mv := reflect.ValueOf(mux).Elem()
+			for i := 0; i < mv.NumField(); i++ {
+				if f := mv.Field(i); f.CanSet() && f.Type() == reflect.TypeOf(lg) {
+					f.Set(reflect.ValueOf(lg))
+				}
+			}
+		}
 		withDefault := rapid.Bool().Draw(t, "with_default")
 		if withDefault {
 			mux.Default = http.HandlerFunc(func(w http.ResponseWriter, r *http.Request) {
@@ -330,7 +345,7 @@ func TestC20Routing(t *testing.T) {
 			"application/nostr+json; q=0.9", "Application/Nostr+JSON", " application/nostr+json", "application/nostr+json, text/html", "application/nostr+jsonx"}).Draw(t, "accept")
 		origin := rapid.SampledFrom([]string{"", "", "https://client.example", "null"}).Draw(t, "origin")
 		conn := rapid.SampledFrom([]string{"Upgrade", "Upgrade", "keep-alive", ""}).Draw(t, "connection")
-		desc := map[string]any{"method": method, "path": path, "upgrade": upgrade, "connection": conn, "accept": accept, "origin": origin, "with_doc": doc != nil, "with_default": withDefault}
+		desc := map[string]any{"method": method, "path": path, "upgrade": upgrade, "connection": conn, "accept": accept, "origin": origin, "with_doc": doc != nil, "with_default": withDefault, "with_loggers": withLoggers}
 		exactAccept := accept == "application/nostr+json"
 		nearMiss := !exactAccept && strings.Contains(strings.ToLower(accept), "application/nostr+json") && accept != "application/nostr+jsonx"
 
@@ -438,6 +453,32 @@ func TestC20Routing(t *testing.T) {
 				hx.Fail(t, ev.Failure{Property: "C20", Signature: "nip11-response", Clause: "Accept: application/nostr+json is answered with the configured relay information document", Case: desc, Observed: why})
 			}
 			col.Label("route:nip11")
+			if doc != nil && method != "HEAD" {
+				// the configured document, not an earlier answer: reconfigure between two requests, in
+				// place or by deriving a new document from the served one
+				newName := rapid.SampledFrom([]string{"renamed relay", "", "r2"}).Draw(t, "rename")
+				how := rapid.SampledFrom([]string{"in-place", "derived-copy"}).Draw(t, "rename_how")
+				if how == "derived-copy" {
+					derived := reflect.New(reflect.TypeOf(*doc))
+					derived.Elem().Set(reflect.ValueOf(doc).Elem())
+					doc = derived.Interface().(*mocrelay.NIP11)
+					mux.NIP11 = doc
+				}
+				doc.Name = newName
+				delete(exp, "name")
+				if newName != "" {
+					exp["name"] = newName
+				}
+				w2 := httptest.NewRecorder()
+				mux.ServeHTTP(w2, req.Clone(context.Background()))
+				res2 := w2.Result()
+				body2, _ := io.ReadAll(res2.Body)
+				if why := checkDoc(res2.StatusCode, res2.Header, body2); why != "" {
+					desc["reconfigured"] = how
+					hx.Fail(t, ev.Failure{Property: "C20", Signature: "nip11-reconfigured", Clause: "Accept: application/nostr+json is answered with the configured relay information document, also after the configuration changed between two requests", Case: desc, Observed: why})
+				}
+				col.Label("route:nip11-reconfigured-" + how)
+			}
 		case nearMiss:
 			d1, d2 := checkDoc(res.StatusCode, res.Header, body), checkDefault(res.StatusCode, res.Header, body)
 			if d1 != "" && d2 != "" && method != "HEAD" {
